@@ -217,6 +217,63 @@ def unit_nldf_generator(version, level, rho_mult):
     return run
 
 
+def unit_nldf_generator_real(version, level):
+    """The same potential = derivative obligation with the generator's REAL convolution methods (buffers, clearing, in-place transforms) around
+    abstract linear collaborators (contracts/genharness.py)."""
+    def run(ctx):
+        from contracts import genharness as GH
+        it = ctx.interp
+        hyps = []
+        RC = tm.var("rhocut")
+        hyps.append(tm.mk_lt(tm.ZERO, RC))
+        h = GH.build(it, version, level, 1, hyps, RC)
+        ctx.assume(GH.ASSUMPTION)
+        nrho = 5 if level == "MGGA" else 4
+        fq = [GMOD + ":LCAONLDFGenerator." + n for n in ("__init__", "get_features", "get_potential", "_perform_fwd_convolution", "_perform_bwd_convolution")]
+        tag = "nldfgen-real[%s,%s]" % (version, level)
+        r = sym_array("r", (nrho, NS))
+        H = list(hyps) + [tm.mk_lt(RC, x) for x in r[0]] + ([tm.mk_le(tm.ZERO, x) for x in r[4]] if level == "MGGA" else [])
+        it.hyps = list(H)
+        gen = h["fresh_gen"]()
+        ps = [p for p in all_paths(it, lambda: it.call_method(gen, "get_features", [r.copy()], {"spin": 0})) if p[0] == "return"]
+        ctx.holds("%s get_features returns" % tag, len(ps) == 1, "", fq)
+        if len(ps) != 1:
+            return
+        feat = np.asarray(ps[0][1], dtype=object)
+        vfeat = sym_array("v", feat.shape)
+        pv = [p for p in all_paths(it, lambda: it.call_method(gen, "get_potential", [vfeat.copy()], {"spin": 0})) if p[0] == "return"]
+        ctx.holds("%s get_potential returns" % tag, len(pv) == 1, "", fq)
+        if len(pv) != 1:
+            return
+        vrho = np.asarray(pv[0][1], dtype=object)
+        Hh = H + list(ps[0][2]) + list(pv[0][2])
+        E = tm.mk_add(*[a * b for a, b in zip(flat_terms(vfeat), flat_terms(feat))])
+        uninit = [u.args[0] for x in list(vrho.reshape(-1)) + list(feat.reshape(-1)) for u in tm.free_vars(tm.lift(x)) if u.args[0].startswith("uninit!")]
+        ctx.holds("%s features and potential do not depend on uninitialised buffer contents" % tag, not uninit, "%s" % uninit[:3], fq)
+        if version == "j":
+            # (the derivative obligation through the real chain is discharged for version j; for i / ij the quadratic l=1 dot products make it too large for
+            # the normal form, and the chain rule itself is already proved with the abstract operator pair in nldfgen/* — here the buffer-state obligations remain)
+            for c in range(nrho):
+                for g in range(NS):
+                    ctx.equal("%s vrho[%d,%d] = d(sum vfeat * feat)/d rho_in[%d,%d]  (through the real buffer handling)" % (tag, c, g, c, g), Hh, vrho[c, g], tm.diff(E, r[c, g]), fq)
+        # a second forward / backward round on the same generator gives the same potential (no state survives in the work buffers)
+        r2 = sym_array("s", (nrho, NS))
+        H2 = Hh + [tm.mk_lt(RC, x) for x in r2[0]] + ([tm.mk_le(tm.ZERO, x) for x in r2[4]] if level == "MGGA" else [])
+        it.hyps = list(H2)
+        it.call_method(gen, "get_features", [r2.copy()], {"spin": 0})
+        it.call_method(gen, "get_features", [r.copy()], {"spin": 0})
+        again = np.asarray(it.call_method(gen, "get_potential", [vfeat.copy()], {"spin": 0}), dtype=object)
+        for c in range(nrho):
+            for g in range(NS):
+                same = tm.lift(again[c, g]) is tm.lift(vrho[c, g])
+                if same:
+                    ctx.holds("%s repeated evaluation after another density: vrho[%d,%d] unchanged" % (tag, c, g), True, "", fq)
+                else:
+                    ctx.equal("%s repeated evaluation after another density: vrho[%d,%d] unchanged" % (tag, c, g), H2, again[c, g], vrho[c, g], fq)
+        ctx.canary("%s canary" % tag, Hh, vrho[0, 0], 2 * tm.lift(vrho[0, 0]) + 1)
+    return run
+
+
 def replay_nldfgen(version, level, rho_mult):
     def replay(wit):
         return {"reproduced": None, "note": "native replay needs the full LCAO generator set-up (atco, convolution collection, interpolator); the failed clause names the density component whose potential is not the derivative"}
@@ -426,6 +483,8 @@ def units():
             u.append(("semilocal/%s/nspin%d" % (mode, nspin), unit_semilocal(mode, "MGGA" if mode in ("nst", "npa") else "GGA", nspin)))
     for version, level, rm in (("j", "MGGA", "one"), ("j", "MGGA", "expnt"), ("j", "GGA", "expnt"), ("i", "GGA", "one"), ("i", "MGGA", "one"), ("ij", "GGA", "one")):
         u.append(("nldfgen/%s/%s/%s" % (version, level, rm), unit_nldf_generator(version, level, rm)))
+    for version, level in (("j", "MGGA"), ("j", "GGA"), ("ij", "GGA"), ("i", "GGA")):
+        u.append(("nldfgen-real/%s/%s" % (version, level), unit_nldf_generator_real(version, level)))
     for nspin in (1, 2):
         for kind in ("MappedXC", "MappedXC2"):
             for fams in (("sl",), ("sl", "nldf"), ("sl", "nldf", "sdmx")):
